@@ -486,3 +486,6 @@ def _tree_seed_replay(env):
               detail='two identically seeded replays of TreeStorage() (default seed) ended with different leaf reservoirs')
     c, d = _tree_run({'seed': 42}), _tree_run({'seed': 42})
     env.claim('explicit_seed_reproducible', c == d)
+
+
+META['explanation'] += ' Structural claims: no generator object, mutable container or mutable default argument lives on a module / class of the computing packages.'
